@@ -1,14 +1,27 @@
 """C03 — a parent never holds two children with the same data_id."""
 from __future__ import annotations
 
+import copy
+import io
+import json
+
+import adapter
 import core
 import histories as H
+import serial_h as S
+from nutree import Tree
+from nutree.common import UniqueConstraintError
+from nutree.typed_tree import TypedTree
 from props import _hist
+from props import c12 as C12
 from props.c01 import LABELS
 
 LEVEL = "proof"
-TRUSTED = ["the decidable `sibUniqueB` of lean/Nutree/Spec/WF.lean is evaluated by the driver on the observed state"]
-ASSUMPTIONS = ["from_dict / load routes are exercised by C14 / C05's checks (their add path is the same add_child)"]
+TRUSTED = ["the decidable `sibUniqueB` of lean/Nutree/Spec/WF.lean is evaluated by the driver on the observed state",
+           "documents campaign: json.dumps/json.load are the identity on JSON values; the independent encoder of props/c12.py and the "
+           "independent duplicate-sibling analysis of props/c03.py (share no code with nutree or the model)"]
+ASSUMPTIONS = ["documents campaign: header values have the documented types (meta / $key_map / $value_map are objects); no floats, no `node_id` "
+               "keys, kinds are strings; the data of a from_dict item without mapper is a JSON scalar (a list/dict with an explicit data_id is not modelled)"]
 
 PROFILES = [
     dict(name="collide", typed=False, malformed=0.05, ops=["add", "add", "addnode", "addnode", "addtree", "move", "move", "remove", "setdata", "setdata", "shortcut"]),
@@ -33,6 +46,684 @@ def keep_ops(impl, ti):
     return [o for o in _hist.all_single_ops(impl, ti, labels=[0, 1]) if o["op"] != "w.sort" and o["op"] != "w.removechildren"]
 
 
+# ====================================================================== campaign "documents"
+#
+# Arbitrary (externally produced, possibly malformed) documents on the routes Tree.load / TypedTree.load /
+# Tree.from_dict / Tree().from_dict / node.from_dict.
+
+
+class MapperRaised(Exception):
+    """an exception that escaped from the harness's deserialisation mapper"""
+
+
+def wrap_mapper(fn):
+    def mapper(parent, data):
+        try:
+            return fn(parent, data)
+        except Exception as e:  # noqa
+            raise MapperRaised(f"{type(e).__name__}: {e}") from None
+
+    return mapper
+
+
+def scalar_code(o):
+    """the model's object number of a JSON scalar used as data object (Ser.scalarAtom)"""
+    if o is None:
+        return 799999
+    if isinstance(o, bool):
+        return 800000 + 2 * (2 if o else 0) + 1
+    return 800000 + 2 * (2 * (-o) - 1 if o < 0 else 2 * o)
+
+
+def impl_shape(tree, pool, scalars=False):
+    def code(o):
+        if scalars and (o is None or isinstance(o, (bool, int))):
+            return scalar_code(o)
+        if scalars and isinstance(o, (list, dict)):
+            return 799998           # Ser.compoundAtom
+        try:
+            return pool.attrs[pool.index_of(o)]["obj"]
+        except KeyError:
+            return repr(o)
+
+    def w(n):
+        return [code(n.data), pool.canon_did(n.data_id), getattr(n, "kind", None), [w(c) for c in n.children]]
+
+    return [w(c) for c in tree.children]
+
+
+def impl_err(e):
+    if isinstance(e, MapperRaised):
+        return "err:callback"
+    return "err:" + adapter.err_class(e)
+
+
+def tree_oracle(tree, typed):
+    """C01-C03 conjuncts evaluated on the implementation alone; list of problems"""
+    bad = []
+    reach = []
+
+    def walk(p, depth):
+        if depth > 100:
+            bad.append("depth > 100 (cycle?)")
+            return
+        ids = [c.data_id for c in p.children]
+        if len(set(ids)) != len(ids):
+            bad.append(f"parent {p!r} has two children with one data_id: {ids!r}")
+        for c in p.children:
+            reach.append(c)
+            if c.up() is not p:
+                bad.append(f"{c!r}.up() is not the node that lists it")
+            if c.parent is not (None if p is tree.system_root else p):
+                bad.append(f"{c!r}.parent disagrees with its position")
+            if c.tree is not tree:
+                bad.append(f"{c!r}.tree is another tree")
+            walk(c, depth + 1)
+
+    walk(tree.system_root, 0)
+    if len({id(n) for n in reach}) != len(reach):
+        bad.append("a node object is reachable twice")
+    if len({n.node_id for n in reach}) != len(reach):
+        bad.append("node_ids are not unique")
+    if tree.count != len(reach) or len(tree) != len(reach):
+        bad.append(f"count={tree.count} len={len(tree)} reachable={len(reach)}")
+    for n in reach:
+        if tree.find_first(node_id=n.node_id) is not n:
+            bad.append(f"find_first(node_id) does not return {n!r}")
+        same = [m for m in reach if m.data_id == n.data_id]
+        got = tree.find_all(data_id=n.data_id)
+        if len(got) != len(same) or {id(x) for x in got} != {id(x) for x in same}:
+            bad.append(f"find_all(data_id={n.data_id!r}) returns {len(got)} nodes, {len(same)} carry it")
+    if type(tree) is not (TypedTree if typed else Tree):
+        bad.append(f"class {type(tree).__name__}")
+    try:
+        tree._self_check()
+    except BaseException as e:  # noqa
+        bad.append(f"_self_check: {e!r}")
+    return bad
+
+
+# ---------------------------------------------------------------- independent analysis: the first event in reading order
+
+def decode_entry(d, km, vm):
+    inv = {v: k for k, v in (km or {}).items()}
+    out = {}
+    for k, v in d.items():
+        lk = inv.get(k, k)
+        if isinstance(v, int) and not isinstance(v, bool) and vm and lk in vm and 0 <= v < len(vm[lk]):
+            v = vm[lk][v]
+        out[lk] = v
+    return out
+
+
+def hashable_id(v):
+    return v is None or isinstance(v, (bool, int, str))
+
+
+def dict_key(d, mode, pool):
+    """canonical data_id of the node a dict describes; None = the mapper refuses it"""
+    if mode == "o":
+        if "o" in d:
+            if not (isinstance(d["o"], int) and not isinstance(d["o"], bool) and 0 <= d["o"] < len(pool.objs)):
+                return None
+            h = pool.attrs[d["o"]]["hid"]
+        elif isinstance(d.get("str"), str):
+            h = pool.attrs[pool.index_of(d["str"])]["hid"]
+        elif isinstance(d.get("data"), str):
+            h = pool.attrs[pool.index_of(d["data"])]["hid"]
+        else:
+            return None
+    else:
+        if not isinstance(d.get("str"), str):
+            return None
+        if mode == "none" and len(d) > 2:
+            return None
+        if mode == "str" and not set(d) <= {"str", "kind", "data_id"}:
+            return None
+        h = pool.attrs[pool.index_of(d["str"])]["hid"]
+    did = d.get("data_id")
+    if did is None:
+        return ("id", h)
+    if not hashable_id(did):
+        return None
+    return ("id", pool.canon_did(did))
+
+
+def first_event_nodes(doc, typed, mode, pool):
+    """("dup", row) / ("other", row) / ("shape", row) / None for a node-list document, following the
+    order in which a reader of the documented layout meets the entries; clone references are followed."""
+    nodes = doc["nodes"]
+    km, vm = doc["meta"].get("$key_map"), doc["meta"].get("$value_map")
+    for i, e in enumerate(nodes, 1):
+        if not (isinstance(e, list) and len(e) == 2):
+            return ("shape", i)
+    keys = {0: None}
+    kids = {0: []}
+    for i, (p, payload) in enumerate(nodes, 1):
+        if isinstance(p, bool) or not isinstance(p, int) or p not in keys:
+            return ("other", i)
+        if isinstance(payload, bool):
+            payload = int(payload)
+        if isinstance(payload, str):
+            key = ("id", pool.attrs[pool.index_of(payload)]["hid"])
+        elif isinstance(payload, int):
+            if payload < 1 or payload not in keys:
+                return ("other", i)
+            key = keys[payload]
+        elif isinstance(payload, dict):
+            key = dict_key(decode_entry(payload, km, vm), mode, pool)
+            if key is None:
+                return ("other", i)
+        else:
+            return ("other", i)
+        if key in kids[p]:
+            return ("dup", i)
+        kids[p].append(key)
+        keys[i] = key
+        kids[i] = []
+    return None
+
+
+def first_event_dicts(items, mode, pool, counter=None):
+    """the same for a nested dict list (pre-order)"""
+    counter = counter if counter is not None else [0]
+    if not isinstance(items, list):
+        return ("other", counter[0])
+    seen = []
+    for it in items:
+        counter[0] += 1
+        row = counter[0]
+        if not isinstance(it, dict):
+            return ("other", row)
+        if mode == "o":
+            key = dict_key(it, "o", pool)
+            if key is None:
+                return ("other", row)
+        else:
+            if "data" not in it:
+                return ("other", row)
+            v = it["data"]
+            did = it.get("data_id")
+            if did is not None and not hashable_id(did):
+                return ("other", row)
+            if isinstance(v, str):
+                h = pool.attrs[pool.index_of(v)]["hid"]
+            elif v is None or isinstance(v, (bool, int)):
+                h = pool.canon_did(hash(v))
+            elif did is not None:
+                h = None            # unhashable data is fine under an explicit data_id
+            else:
+                return ("other", row)
+            key = ("id", pool.canon_did(did) if did is not None else h)
+        if key in seen:
+            return ("dup", row)
+        seen.append(key)
+        ch = it.get("children")
+        if ch:
+            if not isinstance(ch, list):
+                return ("other", row)
+            ev = first_event_dicts(ch, mode, pool, counter)
+            if ev:
+                return ev
+    return None
+
+
+# ---------------------------------------------------------------- independent encoder for the nested dict form
+
+def desc_to_dicts(desc):
+    out = []
+    for payload, did, _kind, kids in desc:
+        d = {"data": payload} if isinstance(payload, str) else dict(payload, data=payload["name"])
+        if did is not None:
+            d["data_id"] = did
+        if kids:
+            d["children"] = desc_to_dicts(kids)
+        out.append(d)
+    return out
+
+
+# ---------------------------------------------------------------- mutations
+
+def _children_of(nodes):
+    ch = {}
+    for i, (p, _) in enumerate(nodes, 1):
+        ch.setdefault(p, []).append(i)
+    return ch
+
+
+def _kind_key(doc):
+    return (doc["meta"].get("$key_map") or {}).get("kind", "kind")
+
+
+def m_dup_entry(rng, doc, typed):
+    nodes = doc["nodes"]
+    j = rng.randrange(1, len(nodes) + 1)
+    nodes.append([nodes[j - 1][0], copy.deepcopy(nodes[j - 1][1])])
+    return True
+
+
+def m_ref_to_sibling(rng, doc, typed):
+    nodes = doc["nodes"]
+    fams = [c for c in _children_of(nodes).values() if len(c) >= 2]
+    if not fams:
+        return False
+    fam = rng.choice(fams)
+    a, b = sorted(rng.sample(fam, 2))
+    nodes[b - 1][1] = a
+    return True
+
+
+def m_dup_dict_id(rng, doc, typed):
+    nodes = doc["nodes"]
+    fams = [c for c in _children_of(nodes).values() if len(c) >= 2]
+    if not fams or doc["meta"].get("$key_map") or doc["meta"].get("$value_map"):
+        return False
+    a, b = sorted(rng.sample(rng.choice(fams), 2))
+    for i in (a, b):
+        pl = nodes[i - 1][1]
+        if isinstance(pl, str):
+            pl = {"str": pl}
+        elif isinstance(pl, int):
+            pl = {"str": "A"}
+            if typed:
+                pl["kind"] = "a"
+        pl = dict(pl)
+        pl["data_id"] = 4242
+        nodes[i - 1][1] = pl
+    return True
+
+
+def m_parent_forward(rng, doc, typed):
+    nodes = doc["nodes"]
+    n = len(nodes)
+    if n < 2:
+        return False
+    j = rng.randrange(1, n)
+    nodes[j - 1][0] = rng.randint(j + 1, n)
+    return True
+
+
+def m_parent_oor(rng, doc, typed):
+    nodes = doc["nodes"]
+    rng.choice(nodes)[0] = len(nodes) + rng.randint(1, 9)
+    return True
+
+
+def m_parent_neg(rng, doc, typed):
+    nodes = doc["nodes"]
+    rng.choice(nodes)[0] = -rng.randint(1, len(nodes))
+    return True
+
+
+def m_parent_self(rng, doc, typed):
+    nodes = doc["nodes"]
+    j = rng.randrange(1, len(nodes) + 1)
+    nodes[j - 1][0] = j
+    return True
+
+
+def m_ref_forward(rng, doc, typed):
+    nodes = doc["nodes"]
+    n = len(nodes)
+    if n < 2:
+        return False
+    j = rng.randrange(1, n)
+    nodes[j - 1][1] = rng.randint(j + 1, n)
+    return True
+
+
+def m_ref_self(rng, doc, typed):
+    nodes = doc["nodes"]
+    j = rng.randrange(1, len(nodes) + 1)
+    nodes[j - 1][1] = j
+    return True
+
+
+def m_ref_zero(rng, doc, typed):
+    rng.choice(doc["nodes"])[1] = rng.choice([0, 0, False])
+    return True
+
+
+def m_ref_oor(rng, doc, typed):
+    nodes = doc["nodes"]
+    rng.choice(nodes)[1] = len(nodes) + rng.randint(1, 9)
+    return True
+
+
+def m_ref_other_kind(rng, doc, typed):
+    """a reference to an earlier entry (typed: preferably one of another kind)"""
+    nodes = doc["nodes"]
+    n = len(nodes)
+    if n < 2:
+        return False
+    kk = _kind_key(doc)
+    for _ in range(20):
+        j = rng.randrange(2, n + 1)
+        i = rng.randrange(1, j)
+        if typed:
+            ki = nodes[i - 1][1].get(kk) if isinstance(nodes[i - 1][1], dict) else None
+            kj = nodes[j - 1][1].get(kk) if isinstance(nodes[j - 1][1], dict) else None
+            if ki is None or ki == kj:
+                continue
+        nodes[j - 1][1] = i
+        return True
+    return False
+
+
+def m_payload_type(rng, doc, typed):
+    rng.choice(doc["nodes"])[1] = copy.deepcopy(rng.choice([None, [], ["A"], True, False, None]))
+    return True
+
+
+def m_dict_bad(rng, doc, typed):
+    opts = [{}, {"x": 1}, {"data_id": 7}]
+    if typed:
+        opts.append({_kind_key(doc): 0 if (doc["meta"].get("$value_map") or {}).get("kind") else "a"})
+    rng.choice(doc["nodes"])[1] = copy.deepcopy(rng.choice(opts))
+    return True
+
+
+def m_typed_no_kind(rng, doc, typed):
+    if not typed:
+        return False
+    kk = _kind_key(doc)
+    sk = (doc["meta"].get("$key_map") or {}).get("str", "str")
+    cand = [e for e in doc["nodes"] if isinstance(e[1], dict) and kk in e[1]]
+    if not cand:
+        return False
+    e = rng.choice(cand)
+    if rng.random() < 0.3 and isinstance(e[1].get(sk), str) and len(e[1]) == 2:
+        e[1] = e[1][sk]          # a plain string entry in a typed document
+    else:
+        del e[1][kk]
+    return True
+
+
+def m_entry_shape(rng, doc, typed):
+    nodes = doc["nodes"]
+    j = rng.randrange(len(nodes))
+    nodes[j] = copy.deepcopy(rng.choice([[nodes[j][0]], nodes[j] + [0], None, 5, []]))
+    return True
+
+
+NODE_MUTATIONS = {
+    "dup_entry": m_dup_entry, "ref_to_sibling": m_ref_to_sibling, "dup_dict_id": m_dup_dict_id,
+    "parent_forward": m_parent_forward, "parent_oor": m_parent_oor, "parent_neg": m_parent_neg, "parent_self": m_parent_self,
+    "ref_forward": m_ref_forward, "ref_self": m_ref_self, "ref_zero": m_ref_zero, "ref_oor": m_ref_oor,
+    "ref_other_kind": m_ref_other_kind, "payload_type": m_payload_type, "dict_bad": m_dict_bad,
+    "typed_no_kind": m_typed_no_kind, "entry_shape": m_entry_shape,
+}
+
+
+def _lists(items, depth=1):
+    """all (list, depth) of a nested dict list"""
+    out = [(items, depth)]
+    for it in items:
+        if isinstance(it, dict) and isinstance(it.get("children"), list):
+            out += _lists(it["children"], depth + 1)
+    return out
+
+
+def _items(items):
+    return [it for l, _ in _lists(items) for it in l if isinstance(it, dict)]
+
+
+def d_dup_depth2(rng, items, mode):
+    ls = [l for l, d in _lists(items) if d >= 2 and l]
+    if not ls:
+        return False
+    l = rng.choice(ls)
+    it = copy.deepcopy(rng.choice(l))
+    if rng.random() < 0.5:
+        it.pop("children", None)
+    l.insert(rng.randint(1, len(l)), it)
+    return True
+
+
+def d_dup_top(rng, items, mode):
+    if not items:
+        return False
+    it = copy.deepcopy(rng.choice(items))
+    items.insert(rng.randint(1, len(items)), it)
+    return True
+
+
+def d_dup_explicit_id(rng, items, mode):
+    ls = [l for l, _ in _lists(items) if len(l) >= 2]
+    if not ls:
+        return False
+    a, b = rng.sample(rng.choice(ls), 2)
+    a["data_id"] = b["data_id"] = rng.choice([4242, "same"])
+    return True
+
+
+def d_no_data(rng, items, mode):
+    it = rng.choice(_items(items))
+    it.pop("data", None)
+    it.pop("o", None)
+    return True
+
+
+def d_data_type(rng, items, mode):
+    if mode != "none":
+        return False
+    rng.choice(_items(items))["data"] = copy.deepcopy(rng.choice([7, -1, 0, True, None, [1], {"a": 1}]))
+    return True
+
+
+def d_item_type(rng, items, mode):
+    if mode != "none":
+        return False
+    l = rng.choice([l for l, _ in _lists(items) if l])
+    l[rng.randrange(len(l))] = copy.deepcopy(rng.choice(["x", None, 3, ["data"], True]))
+    return True
+
+
+def d_children_type(rng, items, mode):
+    if mode != "none":
+        return False
+    rng.choice(_items(items))["children"] = copy.deepcopy(rng.choice(["xy", 3, True, {"data": "B"}, "", 0, {}, None, [], False]))
+    return True
+
+
+def d_data_id_type(rng, items, mode):
+    ls = [l for l, _ in _lists(items) if len(l) >= 2]
+    r = rng.random()
+    if r < 0.4 and ls:
+        a, b = rng.sample(rng.choice(ls), 2)
+        a["data_id"], b["data_id"] = True, 1           # True == 1, hash(True) == 1: the same id
+    elif r < 0.7:
+        rng.choice(_items(items))["data_id"] = copy.deepcopy(rng.choice([[1], {"a": 1}]))
+    else:
+        rng.choice(_items(items))["data_id"] = rng.choice([None, False, 0])
+    return True
+
+
+DICT_MUTATIONS = {
+    "dl_dup_depth2": d_dup_depth2, "dl_dup_top": d_dup_top, "dl_dup_explicit_id": d_dup_explicit_id, "dl_no_data": d_no_data,
+    "dl_data_type": d_data_type, "dl_item_type": d_item_type, "dl_children_type": d_children_type, "dl_data_id_type": d_data_id_type,
+}
+
+
+# ---------------------------------------------------------------- one document
+
+def doc_case(ctx, out, case):
+    """run one document on the implementation and on the model; oracles (a), (b), (c)"""
+    pool = ctx.pool
+    route, typed, mode, doc = case["route"], case.get("typed", False), case["mode"], case["doc"]
+    m = S.Mappers(pool)
+    mapper = wrap_mapper(m.deser) if mode == "o" else None
+    scalars = route != "load" and mode == "none"
+    existing = None
+    # ---- implementation
+    tree = None
+    try:
+        if route == "load":
+            cls = TypedTree if typed else Tree
+            tree = cls.load(io.StringIO(json.dumps(doc)), mapper=mapper)
+        elif route == "from_dict":
+            tree = Tree.from_dict(json.loads(json.dumps(doc)), mapper=mapper)
+        elif route == "from_dict_inst":
+            tree = Tree("other").from_dict(json.loads(json.dumps(doc)), mapper=mapper)
+        else:  # node.from_dict on an existing tree
+            existing = adapter.build(case["spec"], pool)
+            before = impl_shape(existing, pool)
+            target = adapter.node_at(existing, case["path"])
+            target.from_dict(json.loads(json.dumps(doc)), mapper=mapper)
+            tree = existing
+        res = impl_shape(tree, pool, scalars)
+    except RecursionError:
+        raise
+    except BaseException as e:  # noqa
+        res = impl_err(e)
+        tree = None
+    out.dist["result:" + (res if isinstance(res, str) else "tree")] += 1
+    # ---- oracle (a): the first event of the document (independent analysis)
+    if route == "load":
+        ev = first_event_nodes(doc, typed, mode, pool)
+    else:
+        ev = first_event_dicts(doc, mode, pool)
+    if route == "node.from_dict" and case.get("nonleaf"):
+        ev = ("other", 0)        # the documented precondition: the target has no children
+    out.dist["event:" + (ev[0] if ev else "valid")] += 1
+    if ev and ev[0] == "dup":
+        if res != "err:unique":
+            out.fail(case, f"{route}: entry #{ev[1]} of the document is a second child with the data_id of an earlier sibling; expected "
+                           f"UniqueConstraintError, got {res if isinstance(res, str) else 'a tree'}; doc {json.dumps(doc)[:300]}", impl=res)
+    elif ev is None and isinstance(res, str):
+        out.fail(case, f"{route}: a document of the documented layout is refused with {res}; doc {json.dumps(doc)[:300]}", impl=res)
+    elif ev is not None and not isinstance(res, str):
+        out.fail(case, f"{route}: malformed document ({ev[0]} at entry #{ev[1]}) is accepted; doc {json.dumps(doc)[:300]}", impl="tree")
+    # ---- oracle (b): a returned tree is well-formed
+    if tree is not None:
+        bad = tree_oracle(tree, typed)
+        if bad:
+            out.fail(case, f"{route}: the returned tree is not well-formed: {bad[0]}; doc {json.dumps(doc)[:300]}", problems=bad[:5])
+        if case.get("want") is not None and res != case["want"]:
+            out.fail(case, f"{route}: the document describes {case['want']}, loaded {res}", impl=res, spec=case["want"])
+    # ---- (c): state of an existing tree after a refused node.from_dict (reported, not judged)
+    if existing is not None and isinstance(res, str):
+        after = impl_shape(existing, pool, scalars)
+        try:
+            existing._self_check()
+            sc = "selfcheck-ok"
+        except BaseException:  # noqa
+            sc = "selfcheck-FAILS"
+        wf = "wf" if not tree_oracle(existing, False) else "NOT-wf"
+        out.dist[f"existing-after-refusal:{'unchanged' if after == before else 'partial-insertion'}:{sc}:{wf}:{res}"] += 1
+    # ---- model
+    if route == "load":
+        req = {"op": "ser.load", "doc": doc, "typed": typed, "deser": mode}
+    elif route == "node.from_dict":
+        ser = adapter.Serials()
+        ex2 = adapter.build(case["spec"], pool)
+        tj = adapter.tree_json(ex2, ser, pool)
+        req = {"op": "ser.fromdict_at", "t": tj, "parent": ser.of(adapter.node_at(ex2, case["path"])), "next": ser.next, "doc": doc, "deser": mode}
+    else:
+        req = {"op": "ser.fromdict", "doc": doc, "deser": mode}
+    ml = ctx.driver.ask(req)
+    if "fail" in ml:
+        raise core.MachineryError(f"driver: {ml} on {json.dumps(req)[:300]}")
+    mres = S.model_shape(ml["ok"]) if "ok" in ml else "err:" + ml.get("err", "?")
+    if mres != res:
+        out.disagree(case, f"{route}: model {mres if isinstance(mres, str) else 'builds ' + json.dumps(mres)[:200]}, implementation "
+                           f"{res if isinstance(res, str) else 'builds ' + json.dumps(res)[:200]}; doc {json.dumps(doc)[:300]}")
+    return res, ev
+
+
+def documents_campaign(ctx, out):
+    pool = ctx.pool
+    rng = ctx.rng
+    target = 160 if ctx.thorough else 55          # hits per mutation kind
+    hits = {k: 0 for k in list(NODE_MUTATIONS) + list(DICT_MUTATIONS)}
+    KM = [None, {"data_id": "i", "str": "s", "kind": "k"}, {"data_id": "i", "str": "s", "kind": "k", "type": "t", "name": "n", "o": "x"}]
+    k = 0
+    max_docs = 40000 if ctx.thorough else 6000
+    while k < max_docs and (min(hits.values()) < target or k < (3000 if ctx.thorough else 600)):
+        k += 1
+        nodes_route = k % 3 != 0
+        objs = k % 2 == 1
+        if nodes_route:
+            typed = k % 4 in (1, 2)
+            desc = C12.random_desc(rng, pool, rng.randrange(1, 12), typed, objs)
+            km = KM[k % 3] if k % 5 == 0 else None
+            vm = None
+            if km is not None and k % 2 == 0:
+                vm = {"type": ["int", "tuple", "Item", "EqObj"]}
+                if typed:
+                    vm["kind"] = ["a", "b", "child"]
+            doc = C12.encode(desc, typed, km, vm, {"who": "c03-documents"})
+            mode = "o" if objs else ("str" if typed else "none")
+            base = dict(campaign="documents", route="load", typed=typed, mode=mode, doc=doc, mutations=[],
+                        want=C12.desc_shape(desc, pool, typed))
+            muts = NODE_MUTATIONS
+            kind = "nodes:" + ("typed" if typed else "plain") + ("-obj" if objs else "-str") + ("-maps" if km else "")
+        else:
+            desc = C12.random_desc(rng, pool, rng.randrange(1, 12), False, objs)
+            doc = desc_to_dicts(desc)
+            mode = "o" if objs else "none"
+            route = ["from_dict", "from_dict_inst", "node.from_dict"][(k // 3) % 3]
+            base = dict(campaign="documents", route=route, typed=False, mode=mode, doc=doc, mutations=[])
+            want = C12.desc_shape(desc, pool, False)
+            if route == "node.from_dict":
+                spec = S.random_label_spec(rng, rng.randrange(1, 7), S.STRS[2:], False, explicit=0.0, clone_rate=0.2)
+                t0 = adapter.build(spec, pool)
+                allp = []
+
+                def paths(n, pre):
+                    for i, c in enumerate(n.children):
+                        allp.append((pre + [i], bool(c.children)))
+                        paths(c, pre + [i])
+                paths(t0, [])
+                leafs = [p for p, nl in allp if not nl]
+                nonleafs = [p for p, nl in allp if nl]
+                if nonleafs and rng.random() < 0.15:
+                    base.update(spec=spec, path=rng.choice(nonleafs), nonleaf=True)
+                else:
+                    base.update(spec=spec, path=rng.choice(leafs))
+            else:
+                base["want"] = want
+            muts = DICT_MUTATIONS
+            kind = "dicts:" + route + ("-obj" if objs else "-str")
+        # the valid document
+        out.dist["doc:" + kind] += 1
+        doc_case(ctx, out, base)
+        out.count(("doc", json.dumps(base["doc"], sort_keys=True), base["route"], base.get("typed"), json.dumps(base.get("path"))),
+                  (len(doc["nodes"]) if nodes_route else len(_items(doc))) >= 3)
+        # one mutant of it (the kind with the fewest hits that applies), sometimes two mutations
+        order = sorted(muts, key=lambda n: (hits[n], rng.random()))
+        case = copy.deepcopy(base)
+        case.pop("want", None)
+        applied = []
+        for name in order:
+            if (muts[name](rng, case["doc"], case["typed"]) if nodes_route else muts[name](rng, case["doc"], case["mode"])):
+                applied.append(name)
+                break
+        if applied and rng.random() < 0.25:
+            name2 = rng.choice(list(muts))
+            try:
+                ok2 = muts[name2](rng, case["doc"], case["typed"]) if nodes_route else muts[name2](rng, case["doc"], case["mode"])
+            except (TypeError, AttributeError, IndexError, KeyError, ValueError):
+                ok2 = False          # the first mutation destroyed the structure the second one looks at
+            if ok2:
+                applied.append(name2)
+        if not applied:
+            continue
+        case["mutations"] = applied
+        for name in applied:
+            hits[name] += 1
+            out.dist["mut:" + name] += 1
+        out.dist["doc:" + kind + ":mutated"] += 1
+        res, ev = doc_case(ctx, out, case)
+        out.count(("mut", json.dumps(case["doc"], sort_keys=True, default=str), case["route"], case.get("typed")), True)
+        if len(out.samples) < 6 and k % 7 == 0:
+            out.sample(dict(route=case["route"], mutations=applied, doc=case["doc"], result=res if isinstance(res, str) else "tree"))
+    out.extra["documents_mutation_hits"] = dict(hits)
+    low = {n: h for n, h in hits.items() if h < (50 if not ctx.thorough else 150)}
+    if low:
+        out.notes.append(f"documents campaign: mutation kinds below the target: {low}")
+
+
 def run(ctx):
     out = core.Outcome(
         rule="collision-directed: tiny label alphabets (2-4 labels incl. equal-but-distinct objects) so that most operations would create an equal pair; "
@@ -44,8 +735,30 @@ def run(ctx):
     n = 4 if ctx.thorough else 3
     _hist.exhaustive_single_ops(ctx, out, judge, max_nodes=n, alphabet=[0, 1], ops_of=keep_ops, label_limit=None if not ctx.thorough else 12)
     _hist.history_campaign(ctx, out, judge, n_hist=1500 if ctx.thorough else 150, n_steps=80 if ctx.thorough else 25, profiles=PROFILES, labels_sets=SMALL)
+    out.rule += (
+        ". Campaign `documents`: node-list documents (plain/typed, string and object payloads, with/without key/value maps) and nested dict lists "
+        "written by an independent encoder from random described trees, each also with one or two mutations (duplicate entry, clone reference to a "
+        "sibling, equal explicit ids, parent index forward/out of range/negative/self, clone reference forward/self/0/out of range/other kind, payload "
+        "of a wrong JSON type, dict without str/data, typed dict without kind, entry that is not a pair; dict lists: duplicate siblings at depth >= 2 "
+        "and at the top, equal explicit ids, missing data, data/item/children/data_id of a wrong type) on Tree.load / TypedTree.load / Tree.from_dict / "
+        "Tree().from_dict / node.from_dict(existing tree). Oracle on the implementation: the first event of the document in reading order (independent "
+        "analysis following clone references) is a duplicate sibling => UniqueConstraintError; a valid document loads as described; a malformed one is "
+        "not accepted; every returned tree satisfies sibling uniqueness, parent/owner/count/id/index conjuncts and _self_check(); model and "
+        "implementation agree on the error class or on the tree"
+    )
+    documents_campaign(ctx, out)
     return out
 
 
 def replay(ctx, rp):
+    case = rp.get("case") or {}
+    if case.get("campaign") == "documents":
+        out = core.Outcome()
+        if "spec" in case:
+            from props.c10 import tuplify_d
+
+            case["spec"] = tuplify_d(case["spec"])
+        res, ev = doc_case(ctx, out, case)
+        return dict(result=res if isinstance(res, str) else "tree", first_event=ev, failures=[f["what"] for f in out.oracle_failures[:4]],
+                    disagreements=[d["what"] for d in out.disagreements[:3]], property_holds=not out.oracle_failures)
     return _hist.replay(ctx, rp, judge)
